@@ -15,6 +15,8 @@ package bigbuff
 //@   ensures inactive : all(j, 0, len(offsets), offsets[j] < 0) ==> ret == 0
 //@   ensures upper : !some(j, 0, len(offsets), offsets[j] == 0) && some(j, 0, len(offsets), offsets[j] > 0) ==> ret <= size && all(j, 0, len(offsets), offsets[j] > 0 ==> ret <= offsets[j])
 //@   ensures attained : !some(j, 0, len(offsets), offsets[j] == 0) && some(j, 0, len(offsets), offsets[j] > 0) ==> ret == size || some(j, 0, len(offsets), offsets[j] > 0 && ret == offsets[j])
+//@   # C04: a prefix every consumer has committed past (all relative offsets >= p > 0) is reclaimed by one cleaner run
+//@   ensures reclaim [C04] : forall(p, int, len(offsets) > 0 && 0 <= p && p <= size && all(j, 0, len(offsets), offsets[j] >= p) ==> ret >= p)
 //@   loop 0 invariant idx : -1 <= rangeindex && rangeindex < len(offsets) || (rangeindex == -1 && len(offsets) == 0)
 //@   loop 0 invariant nozero : all(j, 0, rangeindex+1, offsets[j] != 0)
 //@   loop 0 invariant act : active <==> some(j, 0, rangeindex+1, offsets[j] > 0)
@@ -24,9 +26,18 @@ package bigbuff
 //@ func FixedBufferCleaner$1
 //@   props C03 C04
 //@   modular
-//@   ensures forced : size > max ==> ret == size - target
-//@   ensures notify : size > max && callback != nil ==> calls(callback) == 1 && lastarg(callback, 0).Max == max && lastarg(callback, 0).Target == target && lastarg(callback, 0).Size == size && lastarg(callback, 0).Trim == size - target && lastarg(callback, 0).Offsets == offsets
-//@   ensures quiet : size <= max || callback == nil ==> calls(callback) == 0
+//@   # the default shift is computed first, exactly once, from the same arguments
+//@   at-call DefaultCleaner#0 same : arg0 == size && arg1 == offsets
+//@   ensures once : icalls("DefaultCleaner") == 1
+//@   # a trim is forced (and notified) exactly when the buffer is over max and the trim goes past the default
+//@   ensures forced : size > max && size - target > ilast("DefaultCleaner", 0) ==> ret == size - target
+//@   ensures unforced : size <= max || size - target <= ilast("DefaultCleaner", 0) ==> ret == ilast("DefaultCleaner", 0)
+//@   ensures notify : size > max && size - target > ilast("DefaultCleaner", 0) && callback != nil ==> calls(callback) == 1 && lastarg(callback, 0).Max == max && lastarg(callback, 0).Target == target && lastarg(callback, 0).Size == size && lastarg(callback, 0).Trim == size - target && lastarg(callback, 0).Offsets == offsets
+//@   ensures quiet : size <= max || size - target <= ilast("DefaultCleaner", 0) || callback == nil ==> calls(callback) == 0
+//@   # C04: a prefix every consumer has committed past is reclaimed by one cleaner run (target <= max as the property requires)
+//@   ensures reclaim [C04] : forall(p, int, 0 <= target && target <= max && len(offsets) > 0 && 0 <= p && p <= size && all(j, 0, len(offsets), offsets[j] >= p) ==> ret >= p)
+//@   # C04: once over max the run brings the size down to at most target (<= max)
+//@   ensures bounded [C04] : size > max && 0 <= target && target <= max ==> size - ret <= max
 //@   ensures dzero : size <= max && some(j, 0, len(offsets), offsets[j] == 0) ==> ret == 0
 //@   ensures dinactive : size <= max && all(j, 0, len(offsets), offsets[j] < 0) ==> ret == 0
 //@   ensures dupper : size <= max && !some(j, 0, len(offsets), offsets[j] == 0) && some(j, 0, len(offsets), offsets[j] > 0) ==> ret <= size && all(j, 0, len(offsets), offsets[j] > 0 ==> ret <= offsets[j])
@@ -481,16 +492,25 @@ package bigbuff
 //@   nopanic always : true
 //@   loop 0 invariant enum : 0 <= mapiter0 && mapiter0 <= len(b.consumers) && len(result) == mapiter0 && all(j, 0, mapiter0, result[j] == b.consumers[mapkey(0, j)] - b.offset)
 //@   ensures size : b != nil && b.consumers != nil ==> len(ret) == len(b.consumers)
+//@   # every element is the relative offset of some consumer (what the cleaner's lower bound is computed from)
+//@   ensures only [C04] : b != nil && b.consumers != nil ==> all(j, 0, len(ret), !forall(k, ref, *consumer, !(has(b.consumers, k) && ret[j] == b.consumers[k] - b.offset)))
 
 //@ func (*Buffer).cleanupLogic
 //@   props C01 C03 C04
 //@   holds W : b.mutex
-//@   requires inv : inv(b.mutex)
+//@   requires inv : b != nil && inv(b.mutex)
 //@   loop 0 invariant nil : 0 <= x && x <= shift && shift <= len(b.buffer) && len(b.buffer) == old(len(b.buffer)) && b.offset == old(b.offset) && all(j, shift, len(b.buffer), b.buffer[j] == old(b.buffer[j])) && heldW(b.mutex)
 //@   ensures shifted : b.offset >= old(b.offset) && end(b) == old(end(b)) && b.offset <= old(end(b))
 //@   ensures window : all(i, 0, len(b.buffer), b.buffer[i] == log(b, b.offset + i))
 //@   ensures cons : forall(k, ref, *consumer, has(b.consumers, k) == old(has(b.consumers, k)) && b.consumers[k] == old(b.consumers[k]))
 //@   ensures noop : !ret ==> unchanged(b.buffer, b.offset)
+//@   # C04: the cleaner sees the current size and the consumers' relative offsets; a cleaner with the verified
+//@   # `reclaim` contract (DefaultCleaner, FixedBufferCleaner with target <= max) then makes one run remove every
+//@   # prefix that all open consumers have committed past
+//@   at-call dynamic#0 view [C04] : arg0 == len(b.buffer) && arg1 == ilast("(*Buffer).consumerOffsets", 0)
+//@   after-call dynamic#0 assume reclaim : forall(p, int, len(arg1) > 0 && 0 <= p && p <= arg0 && all(j, 0, len(arg1), arg1[j] >= p) ==> ret0 >= p)
+//@   ensures reclaimed [C04] : forall(m, int, len(b.consumers) > 0 && old(b.offset) <= m && m <= old(end(b)) && forall(k, ref, *consumer, has(b.consumers, k) ==> b.consumers[k] >= m) ==> b.offset >= m)
+//@   ensures told [C04] : ret ==> icalls("(*sync.Cond).Broadcast") == 1
 
 //@ func WaitCond
 //@   props C05 C12
@@ -683,6 +703,7 @@ package bigbuff
 
 //@ func (*Buffer).cleanup
 //@   props C04 C12 C01
+//@   requires recv : b != nil
 //@   loop WaitCond>0 invariant mon : inv(b.mutex) && heldW(b.mutex)
 
 // ---------------------------------------------------------------------------------------------------
